@@ -38,6 +38,7 @@ struct ISL {
   virtual ~ISL() = default;
   virtual void store(int id) = 0;
   virtual int update() = 0; // returns new id
+  virtual int update_noop() = 0; // update whose functor leaves the value as it is (a conditional update that does not fire); returns the id seen
   virtual int load() = 0;
 };
 template <class B, unsigned S>
@@ -53,6 +54,11 @@ struct SL : ISL {
       v = encode<B>(nid);
     });
     return nid;
+  }
+  int update_noop() override {
+    int seen = 0;
+    s.update([&seen](B& v) { seen = decode(v, "update (functor argument)"); });
+    return seen;
   }
   int load() override { return decode(s.load(), "load"); }
 };
@@ -75,6 +81,7 @@ struct RModel {
     switch (o.kind) {
       case OP_STORE: s = (int)o.a; return true;
       case OP_UPDATE:
+        if (o.a == 1) return s == (int)o.r0; // no-op functor: sees the current value, leaves it
         if ((s + 1000) % 60000 != (int)o.r0) return false;
         s = (int)o.r0;
         return true;
@@ -83,7 +90,7 @@ struct RModel {
   }
   bool step_pending(State& s, const OpRec& o) const {
     if (o.kind == OP_STORE) s = (int)o.a;
-    if (o.kind == OP_UPDATE) s = (s + 1000) % 60000;
+    if (o.kind == OP_UPDATE && o.a != 1) s = (s + 1000) % 60000;
     return true;
   }
   void key(const State& s, std::string& k) const { k.append((const char*)&s, 4); }
@@ -107,7 +114,7 @@ public:
       int n = g.rng.range(1, g.tier ? 6 : 4);
       for (int i = 0; i < n; i++) {
         if (g.rng.chance(60)) p.threads[t].ops.push_back(Op{OP_STORE, id++, 0, 0});
-        else p.threads[t].ops.push_back(Op{OP_UPDATE, 0, 0, 0});
+        else p.threads[t].ops.push_back(Op{OP_UPDATE, g.rng.chance(30) ? 1 : 0, 0, 0});
       }
     }
     for (int t = nw; t < nw + nr; t++) {
@@ -128,8 +135,8 @@ public:
         op_end(1);
         break;
       case OP_UPDATE: {
-        op_begin(OP_UPDATE);
-        int n = s->update();
+        op_begin(OP_UPDATE, op.a);
+        int n = op.a == 1 ? s->update_noop() : s->update();
         op_end(1, n);
         break;
       }
